@@ -24,6 +24,7 @@ func init() {
 		ruleTextRevive(r, k)
 		ruleAggregations(r, "C03")
 		ruleLimitAutocut(r, "C03")
+		ruleDocumentFilter(r, "C03.FILTER")
 		r.FloorCheck("C03.ADM", 3)
 		r.FloorCheck("C03.STATS", 6)
 		r.FloorCheck("C03.HEAP", 5)
